@@ -183,6 +183,35 @@ func runC11(tier string) int {
 		}
 		c11Eval(r, &model.Script{Name: "S", Body: body}, copts, fmt.Sprintf("switch operand kind=%d ctx=%d", kind, ctx), true)
 	})
+	// (round 13) AutoVar switches none of whose cases has a body: nothing is compared, but the command is still a command of
+	// the script and runs once where the switch stands (lazy mode: only commands are observable)
+	emptyDone := r.Parallel(uint64(numAutoKinds*4*3), func(w int, idx uint64) {
+		kind, variant, ctx := int(idx)/12, int(idx)/3%4, int(idx)%3
+		lf := autoLeaf(kind, 0, 1)
+		lf.Src = lf.AutoSrc
+		sw := model.Stmt{Kind: model.SSwitch, Operand: lf}
+		switch variant {
+		case 0:
+			sw.Cases = []model.Case{{Val: 1}, {Val: 2}}
+		case 1:
+			sw.Cases = []model.Case{{Default: true}}
+		case 2:
+			sw.Cases = []model.Case{{Val: 1}, {Default: true}, {Val: 2}}
+		default:
+			sw.Cases = []model.Case{{Val: 4}}
+		}
+		var body []model.Stmt
+		switch ctx {
+		case 0:
+			body = []model.Stmt{mcmd("p"), sw, mcmd("z")}
+		case 1:
+			body = []model.Stmt{sw}
+		default:
+			body = []model.Stmt{{Kind: model.SWhile, Cond: mflag("LC"), Body: []model.Stmt{sw, mcmd("z")}}, mcmd("zz")}
+		}
+		c11Eval(r, &model.Script{Name: "S", Body: body}, copts, fmt.Sprintf("commandless-body switch operand kind=%d cases=%d ctx=%d", kind, variant, ctx), true)
+	})
+	swDone = swDone && emptyDone
 	// AutoVar statements inside poryswitch cases (colon and brace form, selected directly and through '_').
 	pswDone := r.Parallel(uint64(numAutoKinds*4*4), func(w int, idx uint64) {
 		kind, stmtKind, form := int(idx)/16, int(idx)/4%4, int(idx)%4
